@@ -146,6 +146,7 @@ func SessionC15(t *tape.Tape) *core.RunResult {
 	maxSteps := 3000
 	openEnded := limit == 0 && !haveTC // only a halt can end it
 	frugalAfter := 0
+	mutexStuck := 0
 	for steps < maxSteps && !k.OverBudget() {
 		steps++
 		k.Wait()
@@ -174,7 +175,16 @@ func SessionC15(t *tape.Tape) *core.RunResult {
 				}
 			}
 		}
-		if len(parked) == 0 {
+		runnable := k.RunnableParked()
+		if len(parked) > 0 && len(runnable) == 0 {
+			// everything that is parked waits in front of a mutex whose holder is blocked inside its section
+			mutexStuck++
+			if mutexStuck > 6 {
+				res.Probe("tasks-stuck-in-front-of-a-mutex")
+				break
+			}
+		}
+		if len(runnable) == 0 {
 			read()
 			if closed {
 				break
@@ -187,7 +197,7 @@ func SessionC15(t *tape.Tape) *core.RunResult {
 		w := []int{10, 2, 2}
 		switch t.Weighted(w) {
 		case 0:
-			tk := parked[t.Choose(len(parked))]
+			tk := runnable[t.Choose(len(runnable))]
 			cr := 0
 			if tk.Role == "search" {
 				cr = creditChoices[t.Weighted(creditWeights)]
@@ -284,11 +294,14 @@ func SessionC15(t *tape.Tape) *core.RunResult {
 	if !closed && (haltRequested || limit > 0 || hardFired || tcExpired) {
 		for r := 0; r < 400 && !closed && !k.OverBudget(); r++ {
 			k.Wait()
-			ps := k.Parked()
+			ps := k.RunnableParked()
 			if len(ps) == 0 {
 				time.Sleep(time.Hour)
 			}
 			for _, tk := range ps {
+				if !k.Runnable(tk) {
+					continue // the task released just before took the mutex this one waits for
+				}
 				k.Release(tk, 20000)
 				k.Wait()
 				read()
@@ -349,9 +362,41 @@ func SessionC15(t *tape.Tape) *core.RunResult {
 	if df := sb.Snap(b).Diff(sb.Snap(b)); df != "" {
 		_ = df
 	}
+	if !closed {
+		// the final halt is a simulated client too (the controller itself must never wait inside the code
+		// under test): it must come back once everything that can run has run
+		fin := false
+		go func() {
+			k.Park("clientZ.halt")
+			h.Halt()
+			fin = true
+			k.Park("clientZ.done")
+		}()
+		k.Wait()
+		stuck := 0
+		for r := 0; r < 400 && !fin && !k.OverBudget() && stuck < 3; r++ {
+			k.Wait()
+			n := 0
+			for _, tk := range k.Parked() {
+				if strings.HasSuffix(tk.Point, ".done") || !k.Runnable(tk) {
+					continue
+				}
+				n++
+				k.Release(tk, 20000)
+				k.Wait()
+				read()
+			}
+			if n == 0 {
+				stuck++
+				time.Sleep(time.Hour)
+			}
+		}
+		if !fin && !k.OverBudget() {
+			return fail("search-does-not-end", "a final Halt() does not return although every task that can run has run (%s)", describeParked(k.Parked()))
+		}
+	}
 	k.Drain()
 	cancel()
-	h.Halt()
 	time.Sleep(time.Hour)
 	k.Wait()
 	res.Steps = steps
